@@ -291,6 +291,9 @@ func (arch *Arch) Assembler(inp []byte) (Program, error) {
 				return Program{}, Prerror{err.Error() + " on line " + strconv.Itoa(impLine)}
 			}
 		} else {
+			if iLine >= len(curLine) {
+				return Program{}, Prerror{"line too long on line " + strconv.Itoa(impLine)}
+			}
 			curLine[iLine] = ch
 			iLine = iLine + 1
 		}
